@@ -81,6 +81,20 @@ def generate(rng, tier):
             cases.append({"boxes": bs, "q": q, "exact": True, "family": "fraction/mode%d" % mode})
             if rng.random() < 0.5:
                 cases.append({"boxes": bs, "q": q, "exact": False, "family": "float/mode%d" % mode})
+    # floats at both ends of the double range (finite, min <= max): sums of two coordinates overflow, halves do not
+    H = 2.0 ** 1023
+    for _ in range(max(2, nl // 50)):
+        def far(sign):           # an interval whose two ends are both beyond 2^1023 in magnitude (their sum is not a double, their halves are)
+            lo, hi = sorted([sign * rng.uniform(1.05, 1.9) * H, sign * rng.uniform(1.05, 1.9) * H]); return F(lo), F(hi)
+        def near(): lo, hi = sorted([F(rng.randint(-5, 5)), F(rng.randint(-5, 5))]); return lo, hi
+        bs = []
+        axis = rng.choice("xy")
+        for i, sign in enumerate([1, -1] + [rng.choice([1, -1, 0]) for _ in range(rng.randint(0, 3))]):
+            u = far(sign) if sign else near(); v = near() if rng.random() < 0.7 else far(rng.choice([1, -1]))
+            bs.append((i, (u[0], v[0], u[1], v[1]) if axis == "x" else (v[0], u[0], v[1], u[1])))
+        bs.append((len(bs), (F(0), F(0), F(1), F(1))))
+        for q in [bs[0][1], bs[-1][1], (F(-H), F(-H), F(H), F(H)), bs[1][1]]:
+            cases.append({"boxes": bs, "q": q, "exact": False, "family": "float/huge"})
     return cases
 
 def run_impl(c):
